@@ -39,6 +39,9 @@ int ga_count(void);
 /* check canaries of objects [first,last) then make their pages inaccessible again; returns 1 on a
  * damaged canary */
 int ga_drop(int first, int last);
+int ga_drop_list(const int *idx, int n);
+extern __thread int ga_tl_idx[64];
+extern __thread int ga_tl_n;
 const ga_obj *ga_get(int i);
 
 /* ---------- trampoline ---------- */
@@ -124,7 +127,8 @@ typedef struct hx_job {
         const void *ks_ptr[3]; /* 3DES */
         int src_written_ok;   /* library legitimately writes into src (DOCSIS CRC/PON) */
         int submitted, returned;
-        int ga_first, ga_last; /* arena objects of this job */
+        int ga_first, ga_last; /* arena objects of this job (single-threaded drivers) */
+        int gobj[32], ngobj;   /* the same as an explicit list (thread-safe) */
         IMB_JOB snap;         /* descriptor snapshot taken right before submit */
 } hx_job;
 
